@@ -692,6 +692,34 @@ def run_constructor_and_empty_cases(res):
                 res["violations"].append({"sig": dict(sig, symptom="wrong_value"), "case": case, "detail": "gradient %r, closed form %r" % (got, want)})
             else:
                 res["judged"][sig_key(sig)] = 1
+    # (c) flatten / flatten_func called INSIDE the differentiated function on the traced container (the L2-regulariser
+    # idiom): the flat vector is a differentiable function of the container
+    from autograd.misc.flatten import flatten, flatten_func
+
+    pt = {"w": onp.array([0.5, -1.5, 2.0]), "b": (onp.array([[1.0, 2.0]]), 0.25)}
+    FL = {
+        "l2_of_flatten": (lambda p: anp.sum(flatten(p)[0] ** 2), lambda p: {"w": 2 * p["w"], "b": (2 * p["b"][0], 2 * p["b"][1])}),
+        "flatten_then_unflatten": (lambda p: (lambda fu: anp.sum(fu[1](fu[0] * 3.0)["w"] ** 2))(flatten(p)), lambda p: {"w": 18 * p["w"], "b": (0 * p["b"][0], 0.0)}),
+        "flatten_of_derived_tree": (lambda p: anp.sum(flatten([p["w"] * 2.0, (p["b"][1], anp.sin(p["b"][0]))])[0]), lambda p: {"w": 2.0 + 0 * p["w"], "b": (onp.cos(p["b"][0]), 1.0)}),
+        "flatten_func_inside": (lambda p: anp.sum(flatten_func(lambda q, s: anp.sum(q["w"] ** 2) * s + q["b"][1], p)[0](flatten(p)[0], 2.0)), lambda p: {"w": 4 * p["w"], "b": (0 * p["b"][0], 1.0)}),
+    }
+    for name, (f, want_f) in FL.items():
+        res["evaluations"] += 1
+        sig = {"engine": "containers", "family": "flatten_inside_trace", "fn": name}
+        case = {"kind": "ctor_empty", "fn": name, "mode": "rev"}
+        try:
+            with warnings.catch_warnings():
+                warnings.simplefilter("ignore")
+                got = grad(f)(pt)
+        except Exception as e:
+            res["violations"].append({"sig": dict(sig, symptom="exception:" + type(e).__name__), "case": case, "detail": traceback.format_exc()[-300:]})
+            continue
+        want = want_f(pt)
+        ok_ = common.sdesc(got) == common.sdesc(want) and all(onp.allclose(a_, b_, rtol=1e-12, atol=1e-12) for a_, b_ in zip(common.leaves(got), common.leaves(want)))
+        if not ok_:
+            res["violations"].append({"sig": dict(sig, symptom="wrong_value"), "case": case, "detail": "gradient %s, closed form %s" % (common.brief(got, 200), common.brief(want, 200))})
+        else:
+            res["judged"][sig_key(sig)] = 1
     x3 = onp.array([0.5, -1.5])
     E = {
         "tuple_right_of_plus": (lambda e: (lambda t: t[0] * t[1])((5.0, 2.0) + e), ()),
